@@ -17,6 +17,8 @@ pub struct Menu {
     /// offer at most this many most-recent variables per type
     pub vars_per_type: usize,
     pub alias_patterns: bool,
+    /// also generate projection patterns `(/l = x)` and groups `(/l = x; /m = y)` on records
+    pub projection_patterns: bool,
     /// also generate single-arm matches with an irrefutable pattern (tuple, variable, unit, alias)
     /// on product / unit / integer scrutinees
     pub irrefutable_matches: bool,
@@ -98,6 +100,24 @@ impl Gen {
                 out.push(Pat::Tuple(items.clone()));
                 if self.menu.alias_patterns {
                     out.push(Pat::Alias(Box::new(Pat::Tuple(items)), Box::new(Pat::Var(base + cs.len() as Var, ty.clone()))));
+                }
+                if self.menu.projection_patterns {
+                    let projs: Vec<Pat> = cs
+                        .iter()
+                        .enumerate()
+                        .filter_map(|(i, c)| match c {
+                            | VT::Named(l, t) => Some(Pat::Project(l.clone(), i, ty.clone(), Box::new(Pat::Var(base + i as Var, (**t).clone())))),
+                            | _ => None,
+                        })
+                        .collect();
+                    out.extend(projs.iter().cloned());
+                    if projs.len() >= 2 {
+                        // one opening, two selections; and in the other order
+                        out.push(Pat::Alias(Box::new(projs[0].clone()), Box::new(projs[1].clone())));
+                        out.push(Pat::Alias(Box::new(projs[1].clone()), Box::new(projs[0].clone())));
+                        // a selection next to a whole alias
+                        out.push(Pat::Alias(Box::new(projs[1].clone()), Box::new(Pat::Var(base + cs.len() as Var, ty.clone()))));
+                    }
                 }
             }
             | VT::Named(l, t) => out.push(Pat::Named(l.clone(), Box::new(Pat::Var(base, (**t).clone())))),
@@ -551,7 +571,7 @@ pub struct Profile {
 
 pub fn profiles(thorough: bool) -> Vec<Profile> {
     let d = if thorough { 3 } else { 2 };
-    let base = Menu { vts: vec![], datas: vec![], codatas: vec![], ints: vec![1, 2], fix: false, exec: false, redex: false, vars_per_type: 2, alias_patterns: false, irrefutable_matches: false, default_arms: false, nested_patterns: false };
+    let base = Menu { vts: vec![], datas: vec![], codatas: vec![], ints: vec![1, 2], fix: false, exec: false, redex: false, vars_per_type: 2, alias_patterns: false, projection_patterns: false, irrefutable_matches: false, default_arms: false, nested_patterns: false };
     vec![
         Profile {
             name: "functions",
@@ -563,6 +583,12 @@ pub fn profiles(thorough: bool) -> Vec<Profile> {
             name: "products",
             menu: Menu { vts: vec![VT::Int, pair(), rec_nested(), rec_flat()], alias_patterns: true, ints: vec![1, 2], ..base.clone() },
             roots: vec![ret(VT::Int), ret(pair())],
+            size: 7 + d,
+        },
+        Profile {
+            name: "projection-patterns",
+            menu: Menu { vts: vec![VT::Int, rec_nested(), rec_flat()], projection_patterns: true, ints: vec![1, 2], ..base.clone() },
+            roots: vec![ret(VT::Int)],
             size: 7 + d,
         },
         Profile {
